@@ -59,6 +59,12 @@ def main():
         else:
             ids.append(a)
     seeds = []
+    as_prop = {}
+    for n, i in enumerate(list(ids)):
+        if "@" in i:  # C01-4@C03: run C03's check against seed C01-4
+            sid, _, other = i.partition("@")
+            ids[n] = sid
+            as_prop[sid] = other
     for i in ids:
         if os.path.isdir(os.path.join(VERIF, "seeded", i)):
             seeds.append(i)
@@ -73,7 +79,7 @@ def main():
             rc, out = check_tree(pid, None, tier, rev=PINNED, extra=extra)
         else:
             meta = json.load(open(os.path.join(VERIF, "seeded", s, "meta.json")))
-            pid = meta["property"]
+            pid = as_prop.get(s, meta["property"])
             rc, out = check_tree(pid, os.path.join(VERIF, "seeded", s, "patch.diff"), tier, extra=extra)
         lines = [l for l in (out or "").splitlines() if l.startswith(("VIOLATION", "KNOWN-FINDING", "  violation", pid + " tier"))]
         verdict = "DETECTED" if rc == 1 and any(l.startswith("VIOLATION") for l in lines) else f"MISSED (rc={rc})"
